@@ -559,8 +559,17 @@ FieldsOk(rec, env) ==
         FHasDef(rec.fields[i]) => \E p \in {StdPolicy, AltPolicy} :
                                       ~IsErr(DefaultVal(rec.fields[i].defjson, rec.fields[i].type, env, {}, p))
   /\ \A i, k \in 1..Len(rec.fields) : i # k => rec.fields[k].name \notin SeqRange(FAliases(rec.fields[i]))
+(* the schema has at least one finite value: no record contains itself unconditionally (such a reader schema is  *)
+(* uninhabited, and decoding with it never terminates)                                                           *)
+RECURSIVE Productive(_, _, _)
+Productive(s, env, seen) ==
+  CASE s.k = "ref" -> s.name \notin seen /\ s.name \in DOMAIN env /\ Productive(env[s.name], env, seen)
+    [] s.k = "record" -> \A i \in 1..Len(s.fields) : Productive(s.fields[i].type, env, seen \cup {s.name})
+    [] s.k = "union" -> \E i \in 1..Len(s.branches) : Productive(s.branches[i], env, seen)
+    [] OTHER -> TRUE
 (* no dangling reference; one definition per name (copies must be identical); unions well-formed; defaults valid *)
 WellFormedR(s) ==
+  /\ Productive(s, Defs(s), {})
   /\ RefsOf(s) \subseteq {d.name : d \in DefOccs(s)}
   /\ \A a, b \in DefOccs(s) : a.name = b.name => a = b
   /\ UnionsOk(s)
